@@ -215,6 +215,10 @@ pub struct Case {
     pub n_closes: usize,
     /// allow morphisms / dom / cod rows after a close that already saw member facts
     pub late_morphisms: bool,
+    /// > 0: all morphism rows come first, with this many closes placed BETWEEN them (before any fact
+    /// exists): the dom/cod tables are then split into an old and a new half when the facts arrive
+    #[serde(default)]
+    pub early_closes: usize,
 }
 
 pub fn gen_case(p: &Program, tape: &[u16], late_morphisms: bool) -> Case {
@@ -240,7 +244,9 @@ pub fn gen_case(p: &Program, tape: &[u16], late_morphisms: bool) -> Case {
         global_facts.push((k, (0..3).map(|_| t.pick(1 << 16) as u16).collect()));
     }
     let schedule = (0..64).map(|_| t.pick(1 << 16) as u16).collect();
-    Case { n_models, n_elems, mors, member_facts, global_facts, schedule, n_closes: t.pick(3), late_morphisms }
+    let n_closes = t.pick(3);
+    let early_closes = if !late_morphisms && t.chance(1, 3) { 1 + t.pick(2) } else { 0 };
+    Case { n_models, n_elems, mors, member_facts, global_facts, schedule, n_closes, late_morphisms, early_closes }
 }
 
 /// Renders the case into driver commands. Items: for each morphism `new`, `dom row`, `cod row`;
@@ -302,6 +308,18 @@ pub fn render(p: &Program, c: &Case) -> (Vec<Cmd>, bool, bool) {
         for i in (1..all.len()).rev() {
             let j = pick(i + 1);
             all.swap(i, j);
+        }
+        if c.early_closes > 0 {
+            // morphism rows first (in their shuffled order), closes between them, facts afterwards
+            let (mut m, o): (Vec<Item>, Vec<Item>) = all.into_iter().partition(|x| matches!(x, Item::Dom(_) | Item::Cod(_)));
+            for _ in 0..c.early_closes {
+                if m.len() >= 2 {
+                    let pos = 1 + pick(m.len() - 1);
+                    m.insert(pos, Item::Close);
+                }
+            }
+            m.extend(o);
+            all = m;
         }
         let last_mor = all.iter().rposition(|x| matches!(x, Item::Dom(_) | Item::Cod(_))).map(|x| x + 1).unwrap_or(0);
         for _ in 0..closes {
